@@ -150,6 +150,93 @@ pub fn check_plain(fgi: usize, bgi: usize, data: &[u8], target: Target) -> Resul
     check_framing(&out, fgi, bgi, data, n).map_err(|(s, m)| (s.replace("c17:", &format!("c17:{target:?}:")), m))
 }
 
+pub const STDIO_KINDS: [&str; 4] = ["stdout", "stdout_lock", "stderr", "stderr_lock"];
+
+/// Body of the child process (`vh c17-child <kind> <fg> <bg> <hex data>`): one coloured write on a standard stream,
+/// the returned count goes to the other stream.
+pub fn child(args: &[String]) -> i32 {
+    let kind = args.first().map(|s| s.as_str()).unwrap_or("");
+    let fgi: usize = args.get(1).and_then(|s| s.parse().ok()).unwrap_or(0);
+    let bgi: usize = args.get(2).and_then(|s| s.parse().ok()).unwrap_or(0);
+    let data = refmodel::json::unhex(args.get(3).map(|s| s.as_str()).unwrap_or("")).unwrap_or_default();
+    let (fg, bg) = (color(fgi), color(bgi));
+    let r = match kind {
+        "stdout" => std::io::stdout().write_colored(fg, bg, &data),
+        "stdout_lock" => std::io::stdout().lock().write_colored(fg, bg, &data),
+        "stderr" => std::io::stderr().write_colored(fg, bg, &data),
+        "stderr_lock" => std::io::stderr().lock().write_colored(fg, bg, &data),
+        _ => return 3,
+    };
+    let _ = std::io::stdout().flush();
+    let _ = std::io::stderr().flush();
+    let report = match r {
+        Ok(n) => format!("ok {n}"),
+        Err(e) => format!("err {:?}", e.kind()),
+    };
+    if kind.starts_with("stdout") {
+        eprint!("{report}");
+    } else {
+        print!("{report}");
+    }
+    0
+}
+
+/// Standard-stream writer kinds: run the child, capture both pipes, apply the framing rule to what the stream received.
+pub fn check_stdio(kind: &str, fgi: usize, bgi: usize, data: &[u8]) -> Result<(), (String, String)> {
+    let exe = std::env::current_exe().map_err(|e| ("c17:harness".to_string(), e.to_string()))?;
+    let out = std::process::Command::new(exe)
+        .args(["c17-child", kind, &fgi.to_string(), &bgi.to_string(), &refmodel::json::hex(data)])
+        .stdin(std::process::Stdio::null())
+        .output()
+        .map_err(|e| ("c17:harness".to_string(), e.to_string()))?;
+    if !out.status.success() {
+        return Err((format!("c17:{kind}:child-died"), format!("the child process ended with {:?}: {:?}", out.status, show(&out.stderr[..out.stderr.len().min(300)]))));
+    }
+    let (stream, report) = if kind.starts_with("stdout") { (&out.stdout, &out.stderr) } else { (&out.stderr, &out.stdout) };
+    let report = String::from_utf8_lossy(report).into_owned();
+    let Some(n) = report.strip_prefix("ok ").and_then(|s| s.parse::<usize>().ok()) else {
+        return Err((format!("c17:{kind}:unexpected-error"), format!("write on a pipe reported {report:?}")));
+    };
+    if n > data.len() {
+        return Err((format!("c17:{kind}:count"), format!("returned {n} for {} data bytes", data.len())));
+    }
+    // a standard stream may accept a prefix only (line buffering): the framing rule is applied to the accepted part
+    check_framing(stream, fgi, bgi, data, n).map_err(|(s, m)| (s.replace("c17:", &format!("c17:{kind}:")), m))
+}
+
+/// `File` kind, a failed call followed by a good one: a coloured write on a read-only handle fails; the next write on a
+/// healthy file (same thread) must be framed on its own, with nothing left over from the failed call.
+pub fn check_file_sequence(fgi: usize, bgi: usize, data: &[u8]) -> Result<(), (String, String)> {
+    let (fg, bg) = (color(fgi), color(bgi));
+    let dir = std::env::temp_dir();
+    let path = dir.join(format!("vh-c17seq-{}-{:?}.tmp", std::process::id(), std::thread::current().id()));
+    let h = |e: std::io::Error| ("c17:harness".to_string(), e.to_string());
+    std::fs::write(&path, b"").map_err(h)?;
+    let mut ro = std::fs::File::open(&path).map_err(h)?;
+    let first = ro.write_colored(color(2), color(3), b"first message");
+    drop(ro);
+    if first.is_ok() {
+        let _ = std::fs::remove_file(&path);
+        return Err(("c17:harness".into(), "a write on a read-only handle succeeded".into()));
+    }
+    let mut f = std::fs::OpenOptions::new().truncate(true).read(true).write(true).open(&path).map_err(h)?;
+    let r = f.write_colored(fg, bg, data);
+    let mut out = vec![];
+    let _ = f.flush();
+    let _ = f.seek(std::io::SeekFrom::Start(0));
+    let _ = f.read_to_end(&mut out);
+    drop(f);
+    let _ = std::fs::remove_file(&path);
+    let n = match r {
+        Ok(n) => n,
+        Err(e) => return Err(("c17:File-after-error:unexpected-error".into(), format!("write on a healthy file failed: {e}"))),
+    };
+    if n != data.len() {
+        return Err(("c17:File-after-error:count".into(), format!("returned {n} for {} data bytes", data.len())));
+    }
+    check_framing(&out, fgi, bgi, data, n).map_err(|(s, m)| (s.replace("c17:", "c17:File-after-error:"), m))
+}
+
 pub fn check_scripted(fgi: usize, bgi: usize, data: &[u8], script: &[Step], st: Option<&mut Stats>) -> Result<(), (String, String)> {
     let (fg, bg) = (color(fgi), color(bgi));
     let shared = Rc::new(RefCell::new(Shared { script: script.to_vec(), ..Default::default() }));
@@ -325,6 +412,65 @@ pub fn run(cfg: &Cfg) -> Stats {
                 }
             }
         }
+        // large data buffers (sizes around internal buffer sizes), every writer kind and a fault on a later inner write
+        if cfg.tier != Tier::Tiny {
+            for (zi, size) in [1023usize, 1024, 1025, 8191, 8192, 8193, 65536, 65537].iter().enumerate() {
+                for pair in [(0usize, 3usize), (5, 0), (9, 14), (16, 16), (0, 0)] {
+                    k += 1;
+                    if k % n != shard {
+                        continue;
+                    }
+                    let data: Vec<u8> = (0..*size).map(|j| if j % 97 == 96 { b'\n' } else { b'a' + (j % 26) as u8 }).collect();
+                    for (ti, t) in TARGETS.iter().enumerate() {
+                        let case = Case::new("c17-plain").b(&data).n(pair.0 as i64).n(pair.1 as i64).n(ti as i64);
+                        let r = vcore::guarded(|| check_plain(pair.0, pair.1, &data, *t));
+                        eval(r, &mut st, case, true, true);
+                    }
+                    for script in [&[Step::All, Step::All, Step::Accept(3)][..], &[Step::All, Step::Accept(1), Step::All, Step::Other], &[Step::All, Step::All, Step::All, Step::WouldBlock], &[Step::Accept(2), Step::All, Step::All, Step::Interrupted]] {
+                        let mut case = Case::new("c17-scripted").b(&data).n(pair.0 as i64).n(pair.1 as i64);
+                        for s in script {
+                            case = case.n(s.code());
+                        }
+                        let r = vcore::guarded(|| check_scripted(pair.0, pair.1, &data, script, Some(&mut st)));
+                        eval(r, &mut st, case, true, true);
+                    }
+                    let _ = zi;
+                }
+            }
+        }
+        // standard-stream writer kinds (child processes, output captured from pipes) and the File kind after a failed call
+        if cfg.tier != Tier::Tiny {
+            let stdio_data: [&[u8]; 6] = [b"hello world", "\u{e9}\u{6f22}\u{1f600}".as_bytes(), b"caf\xe9.txt \xff\xfe|end", b"line\n", b"", b"a\x1b[1mb\xff"];
+            for (ki, kind) in STDIO_KINDS.iter().enumerate() {
+                for (di, data) in stdio_data.iter().enumerate() {
+                    for (pi, pair) in [(0usize, 0usize), (2, 0), (0, 5), (10, 14), (16, 1), (8, 8)].iter().enumerate() {
+                        k += 1;
+                        if k % n != shard {
+                            continue;
+                        }
+                        if cfg.tier == Tier::Quick && (di + pi + ki) % 2 == 1 {
+                            continue;
+                        }
+                        let case = Case::new("c17-stdio").b(data).n(pair.0 as i64).n(pair.1 as i64).n(ki as i64);
+                        let r = vcore::guarded(|| check_stdio(kind, pair.0, pair.1, data));
+                        st.count("standard_stream_child_runs");
+                        eval(r, &mut st, case, true, true);
+                    }
+                }
+            }
+            for (di, data) in DATA.iter().enumerate() {
+                for pair in [(0usize, 0usize), (3, 1), (0, 9), (12, 0)] {
+                    k += 1;
+                    if k % n != shard {
+                        continue;
+                    }
+                    let case = Case::new("c17-fileseq").b(data).n(pair.0 as i64).n(pair.1 as i64).n(di as i64);
+                    let r = vcore::guarded(|| check_file_sequence(pair.0, pair.1, data));
+                    st.count("file_writes_after_a_failed_call");
+                    eval(r, &mut st, case, true, true);
+                }
+            }
+        }
         // random data
         let mut i = shard;
         while i < nrand {
@@ -375,6 +521,7 @@ pub fn run(cfg: &Cfg) -> Stats {
         o
     });
     st.exhaustive_parts.push("all 17x17 (fg,bg) pairs x 8 data samples x {Vec, File, &mut dyn Write, Box<dyn Write>} without faults".into());
+    st.notes.push("standard-stream kinds (Stdout, StdoutLock, Stderr, StderrLock) run in child processes with both pipes captured, data including invalid UTF-8; the File kind is also written after a failed call on a read-only handle".into());
     st.exhaustive_parts.push(format!("all 17x17 pairs x all inner-writer scripts of length <= {depth_all} (length <= {depth_some} for 6 pairs) over 8 step kinds"));
     st
 }
@@ -383,7 +530,12 @@ pub fn replay(case: &Case) -> Result<String, Viol> {
     let data = case.bytes.first().cloned().unwrap_or_default();
     let fgi = case.nums.first().copied().unwrap_or(0) as usize % 17;
     let bgi = case.nums.get(1).copied().unwrap_or(0) as usize % 17;
-    let r = if case.kind == "c17-plain" {
+    let r = if case.kind == "c17-stdio" {
+        let kind = STDIO_KINDS[case.nums.get(2).copied().unwrap_or(0) as usize % 4];
+        vcore::guarded(|| check_stdio(kind, fgi, bgi, &data))
+    } else if case.kind == "c17-fileseq" {
+        vcore::guarded(|| check_file_sequence(fgi, bgi, &data))
+    } else if case.kind == "c17-plain" {
         let t = TARGETS[case.nums.get(2).copied().unwrap_or(0) as usize % 4];
         vcore::guarded(|| check_plain(fgi, bgi, &data, t))
     } else {
